@@ -23,6 +23,7 @@ import (
 	"math"
 	"sync"
 	"sync/atomic"
+	"time"
 
 	"github.com/google/martian/v3/log"
 	"golang.org/x/net/http2"
@@ -49,6 +50,12 @@ const (
 	//
 	// See: https://tools.ietf.org/html/rfc7540#section-6.6
 	pushPromiseMetadataLength = 4
+
+	// drainTimeout bounds the time a relay whose source has ended goes on delivering what it has
+	// accepted from that source; drainPollInterval is how often it looks whether frames still wait
+	// for window credit.
+	drainTimeout      = 10 * time.Second
+	drainPollInterval = 10 * time.Millisecond
 
 	// outputChannelSize is the size of the output channel. Roughly, it should be large enough to
 	// allow a window's worth of frames to minimize synchronization overhead.
@@ -166,6 +173,10 @@ func (r *relay) relayFrames(closing chan bool, sessionDone chan struct{}) error 
 		for {
 			select {
 			case f := <-r.output:
+				if m, ok := f.(*queuedFlushMarker); ok {
+					close(m.done)
+					continue
+				}
 				if err == nil {
 					r.destMu.Lock()
 					err = f.send(r.dest)
@@ -215,6 +226,63 @@ func (r *relay) relayFrames(closing chan bool, sessionDone chan struct{}) error 
 			return nil
 		}
 	}
+}
+
+// drain waits until everything this relay has accepted from its source has been written to the
+// destination: frames that wait for window credit have been released by the destination's
+// WINDOW_UPDATEs (the peer relay keeps processing them) and the output queue has been written.
+// It gives up when stop is closed or after timeout. It is called once the source has ended its
+// stream of frames in good order, so that what the source sent before it left is not lost just
+// because the destination reads more slowly than the source wrote.
+func (r *relay) drain(stop chan bool, timeout time.Duration) {
+	deadline := time.NewTimer(timeout)
+	defer deadline.Stop()
+	poll := time.NewTicker(drainPollInterval)
+	defer poll.Stop()
+	for {
+		select {
+		case <-stop:
+			return
+		default:
+		}
+		if !r.hasWindowBlockedFrames() {
+			// Whatever is owed to the destination is in the output queue (or written) now; the
+			// marker goes in behind it.
+			m := &queuedFlushMarker{done: make(chan struct{})}
+			select {
+			case r.output <- m:
+			case <-stop:
+				return
+			case <-deadline.C:
+				return
+			}
+			select {
+			case <-m.done:
+			case <-stop:
+			case <-deadline.C:
+			}
+			return
+		}
+		select {
+		case <-poll.C:
+		case <-stop:
+			return
+		case <-deadline.C:
+			return
+		}
+	}
+}
+
+// hasWindowBlockedFrames reports whether any stream has frames queued that wait for window.
+func (r *relay) hasWindowBlockedFrames() bool {
+	r.flowMu.Lock()
+	defer r.flowMu.Unlock()
+	for _, w := range r.outputBuffers {
+		if w.queue.Len() > 0 {
+			return true
+		}
+	}
+	return false
 }
 
 func (r *relay) processFrame(f http2.Frame) error {
